@@ -205,7 +205,7 @@ struct C20 : Scenario {
     Json generate(Rng& rng, const std::string&, std::uint64_t run) override {
         Json p = Json::object(); p["scenario"] = "S-CORRUPT";
         static const char* kinds[] = {"rst", "smry", "run", "deck", "run", "deck", "shipped", "rst"};
-        const std::string kind = kinds[run % 8];
+        const std::string kind = kinds[mix64(run ^ 0xC20) % 8];      // not run % 8: a worker handles every W-th run index and must see every kind
         p["kind"] = kind; p["corpus_seed"] = static_cast<long long>(rng.next() >> 8); p["formatted"] = rng.chance(0.35); p["unified"] = rng.chance(0.6);
         if (kind == "run" || kind == "deck") { GenOpts o; o.max_steps = 3; o.max_actions = 2; o.max_udq = 1; o.esmry = true; o.stop_safe = true; p["model_seed"] = static_cast<long long>(rng.next() >> 8); p["gen"] = o.to_json(); p["physics_seed"] = 5; }
         if (kind == "shipped") p["deck_pick"] = static_cast<long long>(rng.below(1000));
